@@ -239,9 +239,11 @@ func (c18) Gen(r *hx.Run) {
 		case 0:
 			args = append(args, h("MATCH"), h("user:*"))
 		case 1:
-			args = append(args, h("COUNT"), h("100"))
+			// every COUNT is the client's business: small, huge, beyond any sensible bound, not a number; any letter case
+			cnt := []string{"1", "10", "100", "9999", "10000", "10001", "50000", "2147483647", "4294967296", "18446744073709551615", "0", "-1", "abc", "00100"}[rng.Intn(14)]
+			args = append(args, h([]string{"COUNT", "count", "Count", "cOuNt"}[rng.Intn(4)]), h(cnt))
 		case 2:
-			args = append(args, h("match"), h("a*\r\n"), h("count"), h("7"), h("TYPE"), h("zset"))
+			args = append(args, h("match"), h("a*\r\n"), h("count"), h([]string{"7", "10001", "123456789"}[rng.Intn(3)]), h("TYPE"), h("zset"))
 		}
 		var rep string
 		switch rng.Intn(12) {
